@@ -106,7 +106,7 @@ def obj(**members):
 
 JSONRPC_A = [ABSENT, '2.0', '1.0', 2.0, 2, None, ['2.0'], {'v': '2.0'}, True]
 ID_A = [ABSENT, None, 0, 1, -1, 2 ** 64, '', '1', 'x', 1.5, True, [], {}]
-METHOD_A = [ABSENT, 'echo', 'noargs', 'nosuch', '', 1, None]
+METHOD_A = [ABSENT, 'echo', 'noargs', 'nosuch', '', 1, None, ' echo', 'noargs ', '\techo\n']
 PARAMS_A = [ABSENT, [], {}, [1], {'a': 1}, [1, 2, 3], {'zz': 1}, None, 1, 's']
 
 MALFORMED = ['', ' ', '{', '}', '[', ']', '[1,', '{"jsonrpc":"2.0"', '{"jsonrpc":"2.0","method":"echo","id":1}{}',
@@ -270,7 +270,7 @@ def _nest(d):
 
 
 MW_KINDS = [{'k': 'pass'}, {'k': 'short', 'v': enc('short-circuit')}, {'k': 'rename', 'to': 'noargs'}, {'k': 'wrapResult'},
-            {'k': 'setParams', 'p': {'k': 'pos', 'v': enc([5])}}, {'k': 'rename', 'to': 'fail_rpc'}]
+            {'k': 'setParams', 'p': {'k': 'pos', 'v': enc([5])}}, {'k': 'rename', 'to': 'fail_rpc'}, {'k': 'appendParam', 'v': enc(9)}]
 HANDLER_TABLES = [
     None,
     [{'key': None, 'hs': [{'k': 'ident'}]}],
@@ -281,6 +281,9 @@ HANDLER_TABLES = [
      {'key': '2001', 'hs': [{'k': 'setData', 'd': enc('right-list')}]}, {'key': '-32000', 'hs': [{'k': 'recode', 'code': '1'}, {'k': 'ident'}]}],
     [{'key': '-32603', 'hs': [{'k': 'setData', 'd': enc('internal')}]}, {'key': '-32600', 'hs': [{'k': 'recode', 'code': '9'}]},
      {'key': '-32700', 'hs': [{'k': 'recode', 'code': '9'}]}],
+    # per-code keys declared BEFORE the generic one: the generic handlers still run first
+    [{'key': '-32601', 'hs': [{'k': 'setData', 'd': enc('per-code')}]}, {'key': '2001', 'hs': [{'k': 'recode', 'code': '7'}]},
+     {'key': None, 'hs': [{'k': 'setData', 'd': enc('generic')}, {'k': 'ident'}]}, {'key': '-32602', 'hs': [{'k': 'setData', 'd': enc('params')}]}],
 ]
 C12_REQUESTS = [
     {'jsonrpc': '2.0', 'method': 'echo', 'params': [1], 'id': 1}, {'jsonrpc': '2.0', 'method': 'echo', 'params': [1]},
@@ -320,6 +323,10 @@ def gen_c12(tier, rng):
                     e['id'] = i + 10
                     batch[i] = e
             yield case(json.dumps(batch), c, elementwise=True, tag='c12')
+            if rng.random() < (1.0 if thorough else 0.4):
+                # the same batch over the size limit: rejected before dispatch, nothing of the chain runs
+                yield case(json.dumps(batch), cfg(methods=c12_methods(), middlewares=stack, handlers=table, max_batch_size=rng.choice([1, 2])),
+                           elementwise=True, tag='c12')
             if len(stack) <= 1 or thorough:
                 for t in C12_DOCS:
                     yield case(t, c, tag='c12')
